@@ -100,8 +100,15 @@ class DropIn(Monitor):
         # ---- comparison menagerie
         # (out of the property's domain, as the design notes: a postponed annotation that cannot be evaluated at
         # run time -- a TYPE_CHECKING-only name -- makes == propagate the NameError of source_value())
-        if not evaluable(value):
-            ctx.count('C14.menagerie_skipped_unevaluable_annotation')
+        ev = evaluable(value)
+        if ev is not True:
+            if isinstance(ev, NameError):
+                ctx.count('C14.menagerie_skipped_unevaluable_annotation')
+            else:
+                # not a name missing from the defining module: the annotation wrapper itself is broken
+                self.V('annotation-value-raises-%s' % type(ev).__name__,
+                       'source_value() of an annotation of the returned signature raises %s (== and hash() of the signature then raise too)' % type(ev).__name__,
+                       dict(w, exception=repr(ev)[:200]))
             return
         self.menagerie(value, twin, w)
 
@@ -318,8 +325,8 @@ def evaluable(sig):
             p.upgraded_annotation.source_value()
         sig.upgraded_return_annotation.source_value()
         return True
-    except Exception:
-        return False
+    except Exception as e:
+        return e
 
 
 class Anything(object):
